@@ -522,7 +522,7 @@ func (x *Exec) copyRange(st *State, elem types.Type, dstObj, dstOff, srcObj, src
 		na := b.Fresh("copy", SArr(SInt, hr.es))
 		i := b.Var("i!c", SInt)
 		in := b.And(b.Le(dstOff, i), b.Lt(i, b.Add(dstOff, n)))
-		st.assume(b.Forall([]*Term{i}, b.Eq(b.mk("select", hr.es, "", nil, na, i),
+		st.assumeDef(x, b.Forall([]*Term{i}, b.Eq(b.mk("select", hr.es, "", nil, na, i),
 			b.Ite(in, b.mk("select", hr.es, "", nil, srcArr, b.Add(b.Sub(i, dstOff), srcOff)), b.mk("select", hr.es, "", nil, dstArr, i)))))
 		st.setHeap(hr.name, b.Store(cur, dstObj, na), dstObj)
 	}
@@ -556,7 +556,7 @@ func (x *Exec) fillZero(st *State, elem types.Type, obj, lo, hi *Term) {
 		na := b.Fresh("clear", SArr(SInt, hr.es))
 		i := b.Var("i!z", SInt)
 		in := b.And(b.Le(lo, i), b.Lt(i, hi))
-		st.assume(b.Forall([]*Term{i}, b.Eq(b.mk("select", hr.es, "", nil, na, i),
+		st.assumeDef(x, b.Forall([]*Term{i}, b.Eq(b.mk("select", hr.es, "", nil, na, i),
 			b.Ite(in, x.zeroOf(hr.es), b.mk("select", hr.es, "", nil, arr, i)))))
 		st.setHeap(hr.name, b.Store(cur, obj, na), obj)
 	}
@@ -660,7 +660,7 @@ func (x *Exec) havocLoc(st *State, l Loc) {
 	na := b.Fresh(l.Heap+"@mod", es)
 	i := b.Var("i!m", SInt)
 	in := b.And(b.Le(l.Lo, i), b.Lt(i, l.Hi))
-	st.assume(b.Forall([]*Term{i}, b.Or(in, b.Eq(b.mk("select", ees, "", nil, na, i), b.mk("select", ees, "", nil, arr, i)))))
+	st.assumeDef(x, b.Forall([]*Term{i}, b.Or(in, b.Eq(b.mk("select", ees, "", nil, na, i), b.mk("select", ees, "", nil, arr, i)))))
 	st.setHeap(l.Heap, b.Store(cur, l.Obj, na), l.Obj)
 }
 
